@@ -2,7 +2,7 @@
 
 Topology = seeded parent-closed set of 2..10 addresses (depth <= 4); every node is a real RF24Network /
 RF24NetworkRoutingOnly object on its own chip and MCU running the canonical update loop in its own task.
-Messages are sent one at a time; a third of the nodes constructed with another address and re-addressed before start, a quarter with ret_sys_msg on, some with allow_multicast off; the history oracle runs at quiescence.
+Messages are sent one at a time; the destination of a direct message of >= 4 fragments is sometimes busy for 30-70 ms right after its radio stored one of the first fragments (explicit MCU-stall fault, nothing lost); a third of the nodes constructed with another address and re-addressed before start, a quarter with ret_sys_msg on, some with allow_multicast off; the history oracle runs at quiescence.
 
 Clauses (loss-free medium):
   delivered    the destination's application log holds the message once (bytes, type, origin) and write()/send() returned True
@@ -33,7 +33,7 @@ ASSUMPTIONS = ["fault-free claims: every node performs an SPI transaction in <= 
 CLAUSES = {"delivered": "delivered exactly once with identical bytes, type and origin; write() returns True",
            "nobody_else": "to no other node's queue", "intact": "identical bytes", "at_most_once": "exactly once",
            "mtu": "messages longer than 24 bytes travel as frames of at most 32 on-air bytes"}
-PROBES = ["collision", "max_rt"]
+PROBES = ["collision", "max_rt", "fault:mcu_stall_on_rx", "readdressed"]
 SHRINK_KEYS = ("msgs", "faults")
 CHUNK = 10
 MAX_INCONCLUSIVE = 0.02
@@ -108,12 +108,23 @@ def make(i, base_seed, tier):
             nd["ret_sys_msg"] = True
         if xr.random() < 0.15 and nd["cls"] == "net":
             nd["no_multicast"] = True
+        if frag and xr.random() < 0.2:
+            nd["frag_toggled"] = True       # fragmentation was switched off for a while and on again before the run
+    stall = None
+    direct_long = [m for m in msgs if len(netref.path(m["src"], m["dst"])) == 2 and m["len"] > 72]
+    if not lossy and direct_long and xr.random() < 0.6:
+        # explicit fault: the destination of a direct message of >= 4 fragments is busy elsewhere for 30-70 ms right after its radio
+        # stored one of the first fragments (the radio goes on acknowledging until its 3-level RX FIFO is full, then the sender's
+        # re-transmissions wait it out: nothing is lost, and the per-fragment retry budget of 3 x tx_timeout covers the pause).
+        # Routed or acknowledged-type messages are left out: there the pause would eat into route_timeout, which is another budget
+        m_ = xr.choice(direct_long)
+        stall = {"node": m_["dst"], "src": m_["src"], "ms": xr.uniform(30, 70), "nth": xr.randint(0, 2)}
     faults = []
     if lossy:
         ar = stream(seed, "air")
         p = rng.choice([0.02, 0.05, 0.1, 0.2])
         faults = [{"n": n} for n in range(600) if ar.random() < p]
-    return {"seed": seed, "nodes": nodes, "msgs": msgs, "frag": frag, "lossy": lossy, "faults": faults,
+    return {"seed": seed, "nodes": nodes, "msgs": msgs, "frag": frag, "lossy": lossy, "faults": faults, "stall_on_rx": stall,
             "tx_timeout": rng.choice([25, 25, 50]), "route_timeout": rng.choice([75, 75, 150])}
 
 
@@ -144,6 +155,9 @@ def build(scn, w, net):
                 w.sim.count("readdressed")
             if nd.get("ret_sys_msg"):
                 node.ret_sys_msg = True
+            if nd.get("frag_toggled") and scn.get("frag", True) and hasattr(node, "fragmentation"):
+                node.fragmentation = False
+                node.fragmentation = True
             if nd.get("no_multicast") and hasattr(node, "allow_multicast"):
                 node.allow_multicast = False
                 node.node_address = node.node_address
@@ -154,6 +168,20 @@ def build(scn, w, net):
         nc = net.add(nd["addr"], nd["cls"], nd["addr"] if nd.get("first_addr") is None else nd["first_addr"], knobs=nd["knobs"], plus=nd.get("plus", True),
                      backend=nd.get("backend", "spidev"), setup=setup)
         nc.mcu.next_id = nd.get("fid", 0)
+    rule = scn.get("stall_on_rx")
+    if rule and rule["node"] in net.nodes:
+        tgt = net.nodes[rule["node"]]
+        seen = []
+
+        def on_store(pipe, data, tgt=tgt):
+            if (len(data) < 8 or (data[0] | (data[1] << 8)) != rule["src"] or (data[2] | (data[3] << 8)) != rule["node"] or data[6] not in (148, 149)
+                    or len(netref.path(rule["src"], rule["node"])) != 2):
+                return      # only fragments of a direct message addressed to this very node arm the fault
+            seen.append(1)
+            if len(seen) == rule["nth"] + 1:
+                tgt.mcu.pending_stall = int(rule["ms"] * MS)
+                w.sim.count("fault:mcu_stall_on_rx")
+        tgt.radio.on_store = on_store
     net.start()
 
 
@@ -227,7 +255,7 @@ def _run(scn, w, net, res):
                         "message %o -> %o (%d bytes, %d hops, type %d) was delivered but write() returned %r" % (m["src"], m["dst"], m["len"], hops, m["type"], c.result))
             # ---- mtu
             frames = {t["data"] for t in w.air.trace[a0:] if t["src"] == "n%s" % m["src"] and not t["ack"]}
-            if nfrag > 1 and len(frames) < 2:
+            if nfrag > 1 and len(frames) < 2 and c.result:
                 res.add("mtu", {"kind": "not_fragmented"}, "%d-byte message left its origin as %d frame(s)" % (m["len"], len(frames)))
         if res.violations:
             break
